@@ -296,6 +296,12 @@ Definition keep_prefix (v qa ra remote sock : Z) (a : appst) : appst * option er
   bind (i_array R0 ra (i_set R0 10 a)) (fun a =>
   (i_set R5 10 (i_set R4 0 (i_set R3 ra (i_set R2 qa (i_set R1 sock (i_set R0 remote a))))), None)))).
 
+(* the mapping attempt of a delivery faulted after used.add: the response stays pending.  A
+   qubit that only now became marked in use is in flight (one that was marked before is either
+   reserved already or -- contract broken -- mapped by someone) *)
+Definition mark_resv (s : state) (nd p : Z) : list (Z * Z) :=
+  if mem2 (nd, p) (used s) then resv s else (nd, p) :: resv s.
+
 (* _handle_epr_ok_k_response + _store_ent_info for pair 0 of that request *)
 Definition do_keep (s : state) (nd : Z) (k : pid) (a : appst) (qa ra : Z) (p : Z) (info : list Z)
   : state * outcome :=
@@ -303,10 +309,12 @@ Definition do_keep (s : state) (nd : Z) (k : pid) (a : appst) (qa ra : Z) (p : Z
   | Some (Some v :: _) =>
       if has_virtual (a_um a) v then (put_app s k a, Deferred)
       else
-        let u := add2 (nd, p) (used s) in            (* marked in use before the mapping is attempted *)
+        let u := add2 (nd, p) (used s) in            (* marked in use before the mapping is attempted;
+                                                        when the attempt faults the response stays
+                                                        pending: the qubit is (still) in flight *)
         match slot (List.length (a_um a)) v with
-        | High => (mkSt (aset pair_eqb k a (apps s)) u (resv s) (shreg s), Fault EOutHigh)
-        | Low => (mkSt (aset pair_eqb k a (apps s)) u (resv s) (shreg s), Fault EIndex)
+        | High => (mkSt (aset pair_eqb k a (apps s)) u (mark_resv s nd p) (shreg s), Fault EOutHigh)
+        | Low => (mkSt (aset pair_eqb k a (apps s)) u (mark_resv s nd p) (shreg s), Fault EIndex)
         | Slot i =>
             match nth_error (a_um a) i with
             | Some None =>
@@ -316,7 +324,7 @@ Definition do_keep (s : state) (nd : Z) (k : pid) (a : appst) (qa ra : Z) (p : Z
                           | None => a1
                           end in
                 (mkSt (aset pair_eqb k a2 (apps s)) u (rem2 (nd, p) (resv s)) (shreg s), Done)
-            | _ => (mkSt (aset pair_eqb k a (apps s)) u (resv s) (shreg s), Fault EBusy)
+            | _ => (mkSt (aset pair_eqb k a (apps s)) u (mark_resv s nd p) (shreg s), Fault EBusy)
             end
         end
   | _ => (put_app s k a, Fault EUndefReg)
@@ -420,11 +428,14 @@ Definition registry_exact (s : state) : Prop :=
 Definition Inv (s : state) : Prop :=
   keys_unique s /\ injective s /\ used_exact s /\ resv_fresh s /\ registry_exact s.
 
-(* environment contract: the physical qubit named by a keep response was reserved
-   from this executor's pool and has not been delivered yet *)
+(* environment contract: the physical qubit named by a keep response is one the network
+   stack may use for a delivery: either it was reserved from this executor's pool
+   (_get_unused_physical_qubit) and not delivered yet, or it is not marked in use at all
+   (free, unmapped) at the moment of delivery *)
 Definition fresh_delivery (s : state) (o : op) : Prop :=
   match o with
-  | Keep nd _ _ _ _ info => forall p, nth_error info 2 = Some p -> In (nd, p) (resv s)
+  | Keep nd _ _ _ _ info =>
+      forall p, nth_error info 2 = Some p -> In (nd, p) (resv s) \/ ~ In (nd, p) (used s)
   | _ => True
   end.
 
